@@ -427,6 +427,18 @@ func check(id, tier string) int {
 	start := time.Now()
 	seed, _ := strconv.ParseInt(os.Getenv("VERIF_SEED"), 10, 64)
 	evPath := filepath.Join(root, "evidence", id+".json")
+	if only := os.Getenv("VERIF_ONLY_PART"); only != "" {
+		// development aid: run one clause only; its evidence goes to .work, never to evidence/
+		mm := *m
+		mm.Parts = nil
+		for _, p := range m.Parts {
+			if p.Name == only {
+				mm.Parts = append(mm.Parts, p)
+			}
+		}
+		m = &mm
+		evPath = filepath.Join(root, ".work", id+"."+only+".evidence.json")
+	}
 	_ = os.MkdirAll(filepath.Dir(evPath), 0o755)
 	_ = os.MkdirAll(filepath.Join(root, "bin"), 0o755)
 
